@@ -79,6 +79,22 @@ def has(t, pred):
 def has_bits(t): return has(t, lambda x: x[0] == "bits")
 
 
+def read_corpus(prop):
+    """corpus/<prop>/*.txt except the proposal file (which holds finding lines, not cases)"""
+    import os
+    import vlib
+    d = os.path.join(vlib.ROOT, "corpus", prop)
+    lines = []
+    if os.path.isdir(d):
+        for f in sorted(os.listdir(d)):
+            if f.endswith(".txt") and not f.startswith("FINDINGS"):
+                for l in open(os.path.join(d, f)):
+                    l = l.split("#")[0].strip()
+                    if l:
+                        lines.append(l)
+    return lines
+
+
 # ---- values -> integer lists (enc_val / dec_val layout) ----
 def enc_val(t, v, out):
     k = t[0]
@@ -443,9 +459,6 @@ def known_shape(t, v):
             if opt and fv == NONE:
                 continue
             inner = fv[1] if opt else fv
-            if opt and ft[0] == "null":
-                # Some(NULL): the writer does not advance the counter, the reader does when the next tag is absent
-                return "optional_null_shifts_fields"
             r = known_shape(ft, inner)
             if r:
                 return r
@@ -464,6 +477,37 @@ def bits_excess(t, v):
     if k == "choice":
         return bits_excess(t[1][v[0]], v[1])
     return False
+
+
+def trim_bits(t, v):
+    """the value with every bit string cut to the bytes its bit length needs"""
+    k = t[0]
+    if k == "bits":
+        return (tuple(v[0][:(v[1] + 7) // 8]), v[1])
+    if k == "seq":
+        return [fv if (opt and fv == NONE) else (some(trim_bits(ft, fv[1])) if opt else trim_bits(ft, fv))
+                for (opt, ft), fv in zip(t[1], v)]
+    if k == "list":
+        return [trim_bits(t[1], e) for e in v]
+    if k == "choice":
+        return (v[0], trim_bits(t[1][v[0]], v[1]))
+    return v
+
+
+def flatten_nested(t, v):
+    """what survives of a list of lists when nothing is read for its empty inner lists (only the shape
+    [[], [], ..] -> [] is meant; a non-empty inner list never comes back at all)"""
+    k = t[0]
+    if k == "list" and t[1][0] == "list":
+        return [e for e in v if len(e) > 0]
+    if k == "seq":
+        return [fv if (opt and fv == NONE) else (some(flatten_nested(ft, fv[1])) if opt else flatten_nested(ft, fv))
+                for (opt, ft), fv in zip(t[1], v)]
+    if k == "list":
+        return [flatten_nested(t[1], e) for e in v]
+    if k == "choice":
+        return (v[0], flatten_nested(t[1][v[0]], v[1]))
+    return v
 
 
 def parse_4050(o):
@@ -535,6 +579,9 @@ class C17(Spec):
                         "64-bit usize", "tag counters stay below 2^32"]
     mem_gb = 4
 
+    def corpus(self):
+        return read_corpus(self.prop)
+
     def gen(self, rng, tier):
         L = []
         n_rand = 250 if tier == "quick" else 6000
@@ -598,13 +645,6 @@ class C17(Spec):
             L.append(line(4050, tid, cap, *enc_val(t, v, [])))
             if rng.random() < 0.5:
                 seeds.append((tid, pb_msg(t, normalise(t, v))))
-        # corpus-like deterministic witnesses of the families found on the real crate
-        L.append("4050 16 0 1 0 5")          # OptNull { n: Some(NULL), b: None, c: 5 }
-        L.append("4050 17 0 0")              # ChNull::N(NULL)
-        L.append("4050 20 0 0 2 1 2")        # ChList::L([1, 2])
-        L.append("4050 20 0 0 0")            # ChList::L([])
-        L.append("4050 19 0 1 1 7 9")        # Nested { ll: [[7]], x: 9 }
-        L.append("4050 18 0 3 2 255 255")    # BitsT(from_bytes([FF, FF], 3)): excess byte kept by the value
         # ---- ProtobufEq ----
         for pid, t in PEQ_ZOO.items():
             for _ in range(n_rand):
@@ -744,52 +784,51 @@ class C17(Spec):
             shape = known_shape(t, v)
             if p["w"][0] != "ok":
                 return ("write_failed", "growable writer failed: %s" % out[:80])
+            res = []     # independent deviations are reported side by side
             wb = p["w"][1]
             s = p["s"]
             if cap in (0, 1) or len(wb) == 0:
                 if s[0] != "ok" or s[1] != wb:
-                    return ("backends_differ", "slice back end (cap mode %d): %s vs %d bytes from the Vec back end" % (cap, s[:1], len(wb)))
+                    res.append(("backends_differ", "slice back end (cap mode %d): %s vs %d bytes from the Vec back end" % (cap, s[:1], len(wb))))
             else:
                 if s[0] != "err":
-                    return ("slice_overflow_not_reported", "capacity %d < %d bytes but the slice writer returned %s" % (len(wb) - 1, len(wb), s[0]))
+                    res.append(("slice_overflow_not_reported", "capacity %d < %d bytes but the slice writer returned %s" % (len(wb) - 1, len(wb), s[0])))
             r = p["r"]
             if r[0] == "panic":
                 if r[1] == 7:
-                    return (shape if shape == "nested_list_read_unbounded" else "read_unbounded",
-                            "reading back the writer's own bytes never terminates (unbounded allocation)")
-                return ("roundtrip_read_panic", "reader panicked (class %d) on the writer's own bytes" % r[1])
-            if r[0] == "err":
-                return (shape if shape in ("choice_null_unreadable", "choice_list_alternative") else "roundtrip_read_err",
-                        "reader returned Err(kind %d) on the writer's own bytes" % r[1])
-            back, pos = dec_val(t, r[1], 0)
-            if pos != len(r[1]):
-                return ("harness_format", "trailing ints in read-back value")
-            if not peq(t, v, back):
-                if bits_excess(t, v):
-                    cls = "bitvec_excess_bytes"
-                elif shape in ("optional_null_shifts_fields", "choice_list_alternative"):
-                    cls = shape
-                elif has(t, lambda x: x[0] == "list" and x[1][0] == "list"):
-                    cls = "nested_list_flattened"
+                    res.append((shape if shape == "nested_list_read_unbounded" else "read_unbounded",
+                                "reading back the writer's own bytes never terminates (unbounded allocation)"))
                 else:
-                    cls = "roundtrip_not_peq"
-                return (cls, "read back %s for %s" % (str(back)[:90], str(v)[:90]))
-            return None
+                    res.append(("roundtrip_read_panic", "reader panicked (class %d) on the writer's own bytes" % r[1]))
+            elif r[0] == "err":
+                res.append((shape if (shape in ("choice_null_unreadable", "choice_list_alternative") and r[1] == 1) else "roundtrip_read_err",
+                            "reader returned Err(kind %d) on the writer's own bytes" % r[1]))
+            else:
+                back, pos = dec_val(t, r[1], 0)
+                if pos != len(r[1]):
+                    res.append(("harness_format", "trailing ints in read-back value"))
+                elif not peq(t, v, back):
+                    nested = has(t, lambda x: x[0] == "list" and x[1][0] == "list")
+                    if shape == "choice_list_alternative":
+                        cls = shape
+                    elif nested and peq(t, flatten_nested(t, v), back):
+                        cls = "nested_list_flattened"
+                    elif bits_excess(t, v) and peq(t, trim_bits(t, v), back):
+                        cls = "bitvec_excess_bytes"
+                    else:
+                        cls = "roundtrip_not_peq"
+                    res.append((cls, "read back %s for %s" % (str(back)[:90], str(v)[:90])))
+            return res or None
         if op == 4060:
-            tid, hint = a[1], a[2]
+            tid = a[1]
             if o[:1] == [2]:
-                t = ZOO[tid]
                 c = o[1]
-                if hint == 1 or (hint == 0 and has_bits(t) and c == (2 if dev else 6)):
-                    cls = "read_bit_vec_short"
+                if c == 7 and tid == 19:
+                    cls = "nested_list_read_unbounded"
                 elif c == 7:
-                    cls = "nested_list_read_unbounded" if tid == 19 else "index_enclosed_unbounded"
-                elif c == 2:
-                    cls = "index_enclosed_length_overflow"
-                elif c == 6 or (c == 9 and not dev):
-                    cls = "index_enclosed_trusts_lengths"
+                    cls = "reader_unbounded"
                 else:
-                    cls = "read_panic_other"
+                    cls = "reader_panic"
                 return (cls, "reader panicked (class %d) on %d arbitrary bytes for zoo type %d" % (c, len(a) - 3, tid))
             return None
         if op == 4070:
@@ -815,7 +854,7 @@ class C17(Spec):
 
 C17.theorems = ["C17_varint_roundtrip", "C17_zigzag_roundtrip", "C17_tag_roundtrip", "C17_number_roundtrip",
                 "C17_roundtrip_partial", "C17_roundtrip_flat_partial", "C17_backends_agree_partial",
-                "C17_refuted_optional_null", "C17_refuted_choice_null", "C17_refuted_choice_list",
+                "C17_optional_null_fixed", "C17_refuted_choice_null", "C17_refuted_choice_list",
                 "C17_refuted_nested_list", "C17_refuted_bitvec_excess", "C04_proto_refuted_bit_vec_short",
-                "C04_proto_refuted_length_overflow", "C04_proto_refuted_trusted_length"]
+                "C04_proto_bit_string_fixed", "C04_proto_length_overflow_fixed", "C04_proto_trusted_length_fixed"]
 SPEC = C17()
